@@ -7,7 +7,7 @@ struct C20TOp
   uint8_t kind, name, cat;
   uint32_t value;
 };
-enum { C20_MAXT = 8, C20_MAXOPS = 24 };
+enum { C20_MAXT = 8, C20_MAXOPS = 24, C20_NAMES = 204 };
 struct C20TPlan
 {
   unsigned chunk;            // chunk-size knob (8192 = shipped)
@@ -20,6 +20,7 @@ struct C20TPlan
   int global_api;            // 1: free functions + process-global recorder (one run per child)
   int t0_records;            // thread 0 records too
   int sequential;            // 1: every recording thread is joined before the next starts (thread ids recur)
+  int many_names;            // 1: event names come from a pool of 200 distinct strings (short and long), not from 4
 };
 struct C20IPlan
 {
